@@ -53,6 +53,7 @@ CHECKS = {
             {"name": "ipv6", "pkg": "pkg/plugin/processor/egress", "harness": "c18", "run": "^TestVerifC18IPv6$"},
             {"name": "dial", "pkg": "pkg/plugin/processor/egress", "harness": "c18", "run": "^TestVerifC18Dial$", "shards": 8, "shards_thorough": 16},
             {"name": "policy", "pkg": "pkg/plugin/processor/egress", "harness": "c18", "run": "^TestVerifC18Policy$", "shards": 8},
+            {"name": "dialseq", "pkg": "pkg/plugin/processor/egress", "harness": "c18", "run": "^TestVerifC18DialSequences$", "shards": 8, "shards_thorough": 16},
         ],
     },
     "C20": {
